@@ -106,6 +106,8 @@ def oneline(s):
 
 
 out = sys.stdout
+PRE = b''   # one-shot: bytes already in the output buffer when the next ENC starts
+SKIP = 0    # one-shot: bytes of the input buffer read before the next DEC starts
 for line in sys.stdin:
     toks = line.split()
     if not toks:
@@ -116,6 +118,14 @@ for line in sys.stdin:
     if cmd in ('REG', 'UNREG'):
         import checksum as _cs
         (_cs.register if cmd == 'REG' else _cs.unregister)(toks[2])
+        out.write('OK %s\n' % mid)
+        continue
+    if cmd == 'PRE':
+        PRE = binascii.unhexlify(toks[2]) if len(toks) > 2 else b''
+        out.write('OK %s\n' % mid)
+        continue
+    if cmd == 'SKIP':
+        SKIP = int(toks[2])
         out.write('OK %s\n' % mid)
         continue
     if MOD is None:
@@ -129,6 +139,9 @@ for line in sys.stdin:
                 out.write('ERR %s unsupported %s\n' % (mid, u))
                 continue
             buf = ByteBuf()
+            if PRE:
+                buf.write_bytes(PRE)
+                PRE = b''
             obj.encode(buf)
             out.write('ENC %s %s\n' % (mid, binascii.hexlify(buf.to_bytes()).decode()))
         elif cmd == 'DEC':
@@ -138,6 +151,9 @@ for line in sys.stdin:
                 continue
             data = binascii.unhexlify(toks[3]) if len(toks) > 3 else b''
             buf = ByteBuf(data)
+            if SKIP:
+                buf.read_bytes(SKIP)
+                SKIP = 0
             obj = cls()
             obj.decode(buf)
             out.write('DEC %s %d %s\n' % (mid, buf.read_index, dump(obj)))
